@@ -9,7 +9,7 @@ for n in ["Overlap", "ChEarly"]:
     PROPERTY_OF[n] = "C04"
 for n in ["NotCancelled", "LiveMany", "LiveOrphan", "LiveStaleCtx", "LiveStale", "StateLost"]:
     PROPERTY_OF[n] = "C05"
-for n in ["RerunAfterSuccess", "RerunAfterError", "RerunNoCause", "RestartLost", "RetryLost", "BackoffNotReset", "WaitWrong", "WaitStuck",
+for n in ["RerunAfterSuccess", "RerunAfterError", "RerunNoCause", "CancelNoCause", "RestartLost", "RetryLost", "BackoffNotReset", "WaitWrong", "WaitStuck",
           "ExitCbDup", "ExitCbFabricated", "ExitCbWrongErr", "ExitCbMissing"]:
     PROPERTY_OF[n] = "C14"
 
@@ -56,14 +56,14 @@ def models(wd, tier, seed):
         if not os.path.exists(scen_path(name)):
             continue
         sc = json.load(open(scen_path(name)))
-        r, paths, nn = vlib.model_and_schedules(wd, name, mk_factory(sc), LABEL_RULES, seed, cap=250 if quick else 8000,
+        r, paths, nn = vlib.model_and_schedules(wd, name, mk_factory(sc), LABEL_RULES, seed, cap=sc.get("cap", 250) if quick else 8000,
                                                 invariant_cfg={"specdirs": ["routine", "lib"]}, graph_cfg=None,
                                                 workers=8, timeout=900, maxlen=90)
         states += r["distinct"]
         trans += r["states"]
         notes += nn
         names.append(name)
-        dsc = {k: v for k, v in sc.items() if k != "maxg"}
+        dsc = {k: v for k, v in sc.items() if k not in ("maxg", "cap")}
         for i, p in enumerate(paths):
             scheds.append({"name": "%s/%d" % (name, i), "scenario": dsc, "labels": p})
     return states, trans, scheds, notes, names
